@@ -1,3 +1,4 @@
+import Swat4.Gen.Facts
 import Swat4.Model.UseCases.Discovery
 import Swat4.Lemmas.Prog
 /-!
@@ -273,6 +274,28 @@ theorem revive_pred (r : SRow) (lo hi : Int) :
 /-- non-vacuity: a registry with one server whose port is known yields one refresh probe -/
 example : (({ servers := (∅ : ExtTreeMap Nat SRow).insert 5 ⟨{ addr := ⟨0, 5⟩, queryPort := 6, status := Status.port, info := [], details := ⟨[], [], []⟩, refreshedAt := none, version := 1 }, 0⟩ } : AbsState).filter
     { withStatus := Status.port, noStatus := Status.detailsRetry }).length = 1 := by
+  decide
+
+/-- **Configuration wiring (regenerated fact).**  How configuration reaches the discovery settings: retry budgets (command line → settings → use-case options) and the refresher / reviver configuration: every field of every
+configuration literal in `cmd/swat4master` that concerns this property, with the source text of the value it is given
+(`verifharness facts`, go/ast, on every run).  A command-line value wired to another field, a unit conversion or a
+`max`/`min` slipped into one of these literals changes the generated list and breaks this theorem; the harness itself
+drives these components through their real fx modules (DESIGN 10.8), this pins what the modules are given. -/
+def configRows : List (String × String × String × String × String) :=
+    [("components/refresher/refresher.go", "*command.Run", "Config", "RefreshInterval", "globals.DiscoveryRefreshInterval"),
+     ("components/reviver/reviver.go", "*command.Run", "Config", "RevivalInterval", "globals.DiscoveryRevivalInterval"),
+     ("components/reviver/reviver.go", "*command.Run", "Config", "RevivalCountdown", "globals.DiscoveryRevivalCountdown"),
+     ("components/reviver/reviver.go", "*command.Run", "Config", "RevivalScope", "globals.DiscoveryRevivalScope"),
+     ("container/container.go", "NewUseCaseConfigs", "addserver.UseCaseOptions", "MaxProbeRetries", "settings.DiscoveryRevivalRetries"),
+     ("container/container.go", "NewUseCaseConfigs", "reportserver.UseCaseOptions", "MaxProbeRetries", "settings.DiscoveryRevivalRetries"),
+     ("container/container.go", "NewUseCaseConfigs", "refreshservers.UseCaseOptions", "MaxProbeRetries", "settings.DiscoveryRefreshRetries"),
+     ("container/container.go", "NewUseCaseConfigs", "reviveservers.UseCaseOptions", "MaxProbeRetries", "settings.DiscoveryRevivalRetries"),
+     ("main.go", "main", "settings.Settings", "DiscoveryRevivalRetries", "cli.Globals.DiscoveryRevivalRetries"),
+     ("main.go", "main", "settings.Settings", "DiscoveryRefreshRetries", "cli.Globals.DiscoveryRefreshRetries")]
+
+theorem facts_config_wiring :
+    (Facts.configWiring.filter fun r => configRows.contains r) = configRows ∧
+    (Facts.configWiring.filter fun r => configRows.any fun c => c.1 == r.1 && c.2.1 == r.2.1 && c.2.2.1 == r.2.2.1 && c.2.2.2.1 == r.2.2.2.1) = configRows := by
   decide
 
 end Swat4.C15
